@@ -141,6 +141,7 @@ type hcase struct {
 	Engine     string
 	Seal       bool
 	Dev        string // names of the deviated fields
+	TimeHi     bool   // header time additionally has bit 64 set (everything computed on 64 bits sees time mod 2^64)
 }
 
 // the parent lives 100000 s before the bubble clock; the "future" deltas put the header at now+14/15/16
@@ -150,7 +151,7 @@ func (c *hcase) detail() map[string]interface{} {
 	return map[string]interface{}{
 		"kind": "header", "net": c.Net, "parentNumber": c.ParentNum, "parentDifficulty": c.ParentDiff, "parentGasLimit": fmt.Sprint(c.ParentGas),
 		"delta": c.Delta, "number": c.Number, "extraLen": c.ExtraLen, "gasLimit": fmt.Sprint(c.GasLimit), "gasUsed": fmt.Sprint(c.GasUsed),
-		"difficultyOffset": c.DiffOff, "engine": c.Engine, "seal": c.Seal, "deviated": c.Dev,
+		"difficultyOffset": c.DiffOff, "engine": c.Engine, "seal": c.Seal, "deviated": c.Dev, "timeHi": c.TimeHi,
 		"note": "parent time = bubble clock (2000-01-01T00:00:00Z) - 100000 s; header time = parent time + delta; header difficulty = refdiff + difficultyOffset",
 	}
 }
@@ -162,7 +163,7 @@ func hcaseFromDetail(d map[string]interface{}) *hcase {
 	b, _ := d["seal"].(bool)
 	return &hcase{Net: s("net"), ParentNum: i("parentNumber"), ParentDiff: s("parentDifficulty"), ParentGas: u("parentGasLimit"),
 		Delta: i("delta"), Number: i("number"), ExtraLen: int(i("extraLen")), GasLimit: u("gasLimit"), GasUsed: u("gasUsed"),
-		DiffOff: i("difficultyOffset"), Engine: s("engine"), Seal: b, Dev: s("deviated")}
+		DiffOff: i("difficultyOffset"), Engine: s("engine"), Seal: b, Dev: s("deviated"), TimeHi: d["timeHi"] == true}
 }
 
 type hctx struct {
@@ -208,6 +209,11 @@ func (x *hctx) probe(c *hcase, now int64) (msg, refWhy string, accepted bool) {
 		UncleHash: types.EmptyUncleHash, TxHash: types.EmptyRootHash, ReceiptHash: types.EmptyRootHash,
 	}
 	exp := x.net.Diff(p.Number, p.Time, p.Difficulty, h.Time)
+	if c.TimeHi {
+		// the difficulty is the one of the time modulo 2^64 (so that only the rules on the timestamp itself
+		// can refuse the header); the timestamp is 2^64 later: far in the future
+		h.Time = new(big.Int).Add(h.Time, new(big.Int).Lsh(big.NewInt(1), 64))
+	}
 	h.Difficulty = new(big.Int).Add(exp, big.NewInt(c.DiffOff))
 	h.Version = x.cfg.GetBlockVersion(h.Number)
 	refWhy = x.net.Check(ToRef(p), ToRef(h), now, false)
@@ -241,6 +247,7 @@ func alternatives(parentNum int64, P uint64) [][]fieldAlt {
 		{"time=now+14", func(c *hcase) { c.Delta = parentAge + 14 }},
 		{"time=now+15", func(c *hcase) { c.Delta = parentAge + 15 }},
 		{"time=now+16", func(c *hcase) { c.Delta = parentAge + 16 }},
+		{"time+2^64", func(c *hcase) { c.TimeHi = true }},
 	})
 	out = append(out, []fieldAlt{
 		{"extra=32", func(c *hcase) { c.ExtraLen = 32 }},
